@@ -21,7 +21,10 @@ func init() {
 }
 
 func optionSet(r *Rng) ([]cfgpkg.Option, string) {
-	switch r.Intn(5) {
+	switch r.Intn(6) {
+	case 4:
+		// a hand-written option (cfg.Option is a plain func(*Config)): a dictionary limit that is not the capacity of an index type
+		return []cfgpkg.Option{func(c *cfgpkg.Config) { c.LimitIndexSize = 300 }}, "limit300"
 	case 0:
 		return []cfgpkg.Option{cfgpkg.WithNoZstd()}, "nozstd"
 	case 1:
@@ -342,7 +345,17 @@ func runMemory(o opts, out *Output) {
 				}
 			}()
 			stats["batch_"+class]++
-			hist = append(hist, map[string]any{"signal": sig, "items": itemCount(data), "class": class})
+			statsRead := false
+			if r.Chance(30) {
+				// the producer's other public entry points are part of a history too: reading (and resetting) its statistics
+				func() {
+					defer func() { recover() }()
+					_ = p.GetAndResetStats()
+					_ = p.RecordSizeStats()
+				}()
+				statsRead = true
+			}
+			hist = append(hist, map[string]any{"signal": sig, "items": itemCount(data), "class": class, "stats_read_after": statsRead})
 			if string(before) != string(after) {
 				out.Violation("C15", "input-modified", fmt.Sprintf("encoding modified its input (batch %d, signal %d, options %s)", b, sig, optName), map[string]any{"seed": o.seed, "case": c, "batch": b})
 			}
